@@ -1,7 +1,7 @@
 CHECK = {
     "suites": [suite("conversation", "c16", 3000, 30000, stdin=True, timeout={"quick": 600, "thorough": 2400})],
     "gen": [{"pkg": "extract_c16", "out": "lean/ClusterVerif/Gen/C16.lean"}],
-    "lean_sources": ["ClusterVerif/Model/C16Source.lean", "ClusterVerif/Model/C16Dec.lean", "ClusterVerif/Gen/C16.lean", "ClusterVerif/Model/C16Http.lean", "ClusterVerif/Model/C16.lean", "ClusterVerif/Model/C16Aux.lean", "ClusterVerif/Spec/C16.lean", "ClusterVerif/Lemmas/C16Http.lean", "ClusterVerif/Lemmas/C16.lean"],
+    "lean_sources": ["ClusterVerif/Model/C16Source.lean", "ClusterVerif/Model/C16Dec.lean", "ClusterVerif/Gen/C16.lean", "ClusterVerif/Model/C16Http.lean", "ClusterVerif/Model/C16.lean", "ClusterVerif/Model/C16Aux.lean", "ClusterVerif/Model/C16Ctx.lean", "ClusterVerif/Spec/C16.lean", "ClusterVerif/Lemmas/C16Http.lean", "ClusterVerif/Lemmas/C16.lean"],
     "rule": "cases = (op pin|unpin|PinLsCid, MaxDepth in {-2,-1,0,1,2,7}, Mode, update source none|other|same, 0-13 origins, UnpinDisable, "
             "prior daemon state u|d|r|i of every CID, one daemon behaviour per sequential request: a point of HTTP status (200, other 2xx, 3xx, 4xx, 5xx) x content type x "
             "13 body shapes x 6 transports (complete, nothing, cut, cut after the work was done, stalled before / inside the body) or one of the 21 named wire forms incl. the pin/add stream forms; "
@@ -10,6 +10,7 @@ CHECK = {
             "from one splitmix64 stream per case index; every well-formed case is non-trivial; distinct by case line",
     "trusted_base": ["scripted fake IPFS daemon of harness/c16 (go-ipfs pinner semantics for honest answers, wire forms of the behaviours)",
                      "harness/extract_c16: the symbolic path enumeration that turns doPostCtx/checkResponse/postCtx into decision tables (unknown constructs are emitted as `unknown` and fail closed)",
+                     "harness/extract_c16/ctx.go: the walk that lists, per call of a Connector method taking a context, the WithTimeout / WithCancel / watchdog bounds in force (scoping of := followed; anything else touching ctx is emitted as `unknown` and counts as no bound)",
                      "net/http client and server of the Go standard library"],
     "assumptions": ["an IPFS error object in reply to pin/ls means 'not pinned' (the connector does not read the text)",
                     "a daemon that answers 200 has done what was asked, a daemon that answers non-200 has not, and it says 'not pinned' to pin/rm only for a CID it does not hold",
@@ -23,10 +24,16 @@ META = {
             "from the product space status code x content type x body shape x transport. The HTTP helpers (doPostCtx, checkResponse, postCtx) are not transcribed: the model interprets "
             "decision tables regenerated from the source on every run, with post_success_iff (nil error exactly for status 200 with headers and a completely read body) and "
             "every method's success resting on it; every PinLsCid call site of the source is extracted and skip_only_if_confirmed proved per site. "
+            "Which configured time ends which daemon request is a regenerated table too (Gen.ctxSites: for every call of a Connector method that takes a context, the "
+            "context.WithTimeout(ipfs.config.F) / WithCancel / progress-watchdog bounds in force, go/ast with scoping): the model interprets it (runCtx: an unanswered request whose call chain "
+            "Pin -> PinLsCid -> postCtx -> doPostCtx carries no configured deadline ends only with the caller's context), gen_steps_governed / gen_governor_table (decide) say that today every request of "
+            "Pin, Unpin, PinLsCid and the six single-request methods is governed and by which field (look-ups ipfs_request_timeout, pin/update pin_timeout, pin/add the watchdog and no plain deadline, "
+            "pin/rm unpin_timeout, repo/gc repogc_timeout), runCtx_errctx_iff characterises for ANY table when a call is left to the caller, pin_gives_up is the clause of the same name "
+            "(a Pin never returns only because the caller's context ran out, whichever request stalls), with refutations for a look-up without deadline, a pin/update without deadline and a plain deadline in place of the watchdog. "
             "Every output the model admits satisfies every clause of the property for all pins, prior tables and scripts (allowed_holds, full since the repair of K28). "
             "Tied to today's code by running the real connector against a scripted fake HTTP daemon on loopback and comparing result class, request trace and "
             "final pin table with the model, and by evaluating the Lean property checker on the real outputs.",
     "note": "Trusted: Lean kernel, the hand-written model/spec, the fake daemon and its notion of an honest answer, Go net/http. Timing cases use a 60 ms PinTimeout "
             "and are repeated until two runs agree.",
-    "technique": "semantic translator (go/ast symbolic path enumeration of the HTTP helpers into decision tables interpreted by the model; PinLsCid call sites) + regenerated source text of the anchored functions checked against the transcribed snapshot (rfl) + Lean 4 theorems over an executable conversation model + differential correspondence with the real ipfshttp.Connector",
+    "technique": "semantic translator (go/ast symbolic path enumeration of the HTTP helpers into decision tables interpreted by the model; PinLsCid call sites; context-governance table of every daemon call interpreted by the model) + regenerated source text of the anchored functions checked against the transcribed snapshot (rfl) + Lean 4 theorems over an executable conversation model + differential correspondence with the real ipfshttp.Connector",
 }
